@@ -60,6 +60,61 @@ BOX = SObj(
 )
 SPECS_FS = None
 SPECS = [Spec(BOX, INT), Spec(BOX, STR), Spec(BOX, A), Spec(BOX, Opt(INT)), Coll("list", Spec(BOX, INT)), Spec(BOX, Coll("list", P.COLOR))]
+# hierarchies where a subclass OVERRIDES an inherited serialized method (the most-derived definition wins)
+for _k, _v in (("k_base", "base"), ("k_child", "child"), ("k_grand", "grand"), ("k_other", "other")):
+    S.BODIES[_k] = (lambda v: (lambda s: v))(_v)
+S.BODIES["a_neg"] = lambda s: -s.a
+S.BODIES["a_list"] = lambda s: [s.a]
+OV_BASE = SObj(
+    "dataclass",
+    "OvBase",
+    (Fld("a", INT),),
+    serialized=(
+        SerM("base_kind", STR, "k_base", alias="kind"),  # overridden under the same alias by another function
+        SerM("same_name", STR, "k_base"),  # overridden by a re-decorated method of the same name
+        SerM("plain_over", INT, "a_plus1"),  # overridden by an undecorated python method
+        SerM("as_prop", STR, "k_base"),  # method here, property in the subclass
+        SerM("prop_here", INT, "a_plus1", kind="property"),  # property here, method in the subclass
+        SerM("with_conv", INT, "a_plus1"),  # the override adds a conversion
+        SerM("conv_here", INT, "a_plus1", conv=Conv("str", INT, STR), alias="c_h"),  # the override drops it
+        SerM("ordered", INT, "a_plus1", order=-1),  # order metadata on one of them only
+        SerM("ext_fn", STR, "k_base", kind="function", alias="ext"),  # external function, overridden
+        SerM("kept", INT, "const7"),  # not overridden
+    ),
+)
+OV_CHILD = SObj(
+    "dataclass",
+    "OvChild",
+    OV_BASE.fields + (SFld("b", INT, has_default=True, default=0),),
+    base="OvBase",
+    own=("b",),
+    serialized=S.derive(
+        OV_BASE.serialized,
+        SerM("child_kind", STR, "k_child", alias="kind"),
+        SerM("same_name", STR, "k_child"),
+        SerM("plain_over", INT, "a_neg", decorated=False),
+        SerM("as_prop", STR, "k_child", kind="property"),
+        SerM("prop_here", INT, "a_neg"),
+        SerM("with_conv", INT, "a_neg", conv=Conv("str", INT, STR)),
+        SerM("conv_here2", Coll("list", INT), "a_list", alias="c_h"),
+        SerM("ordered", INT, "a_neg"),
+        SerM("ext_fn2", STR, "k_child", kind="function", alias="ext"),
+        SerM("added", STR, "k_child", order=5),
+    ),
+)
+# a plain (not re-decorated) subclass overriding, and a third level overriding again / leaving the rest
+OV_PLAIN = SObj("dataclass", "OvPlain", OV_BASE.fields, base="OvBase", redecorate=False, serialized=S.derive(OV_BASE.serialized, SerM("kind", STR, "k_other", kind="property"), SerM("kept", INT, "a_neg")))
+OV_GRAND = SObj(
+    "dataclass",
+    "OvGrand",
+    OV_CHILD.fields,
+    base="OvChild",
+    redecorate=False,
+    serialized=S.derive(OV_CHILD.serialized, SerM("grand_kind", STR, "k_grand", alias="kind"), SerM("same_name", Opt(STR), "none"), SerM("added", STR, "k_grand", kind="property"), SerM("ext_fn3", STR, "k_grand", kind="function", alias="ext")),
+)
+# the override on a with_fields_set hierarchy and with an Undefined-able result
+OV_FS = SObj("dataclass", "OvFS", (SFld("a", INT), SFld("o", Opt(INT), has_default=True, default=None)), fields_set=True, serialized=(SerM("maybe", INT, "a_plus1"), SerM("lbl", STR, "k_base", alias="label")))
+OV_FS2 = SObj("dataclass", "OvFS2", OV_FS.fields, base="OvFS", redecorate=False, serialized=S.derive(OV_FS.serialized, SerM("maybe", INT, "undef_if_a0", undefined=True), SerM("lbl2", STR, "k_child", alias="label")))
 # -- skip / none_as_undefined / Undefined ---------------------------------------------------------
 SK = SObj(
     "dataclass",
@@ -253,7 +308,7 @@ AL = SObj(
 )
 TD3 = TD3_
 
-SER_OBJECTS: List[TD] = [SM1, SM2, SM3, SM4, ANYF, SK, SK2, NU, UD, DF, RO, FS1, FS2, FS3, FS4, FSP, UB, DS, SM1S, CV1, RS, RS2, RSS, CV2, KS, AL, TD3, FSC, FSC2, RSUM, RN, POST, HOLD, ANW, ANWF]
+SER_OBJECTS: List[TD] = [SM1, SM2, SM3, SM4, ANYF, SK, SK2, NU, UD, DF, RO, FS1, FS2, FS3, FS4, FSP, UB, DS, SM1S, CV1, RS, RS2, RSS, CV2, KS, AL, TD3, FSC, FSC2, RSUM, RN, POST, HOLD, ANW, ANWF, OV_BASE, OV_CHILD, OV_PLAIN, OV_GRAND, OV_FS, OV_FS2]
 SER_EXTRA: List[TD] = [
     Coll("list", SM1),
     Opt(SK),
@@ -264,6 +319,8 @@ SER_EXTRA: List[TD] = [
     Coll("list", FSP),
     Opt(DS),
     Uni((RS, INT)),
+    Coll("list", OV_BASE),  # holds instances of the declared class only; the subclasses have their own entries
+    Tup((OV_BASE, OV_CHILD, OV_GRAND)),
     Coll("list", RSS),
     Uni((Tup((INT, STR)), Tup((INT, STR, BOOL)))),
     Uni((Tup((INT,)), Tup((INT, A)), Coll("list", INT))),
